@@ -54,6 +54,224 @@ static int setup_tree(std::shared_ptr<Case> c, Rng& g, bool ext_sub, std::vector
 }
 
 
+// ---------------------------------------------------------------------------------------------
+// C02, wake-ups after a restart with a reason other than `signaled`.
+// T target tasks block in a wait of facility 1 (semaphore acquire / cv wait / mutex lock) whose
+// matching wake-up is never issued.  A driver (plain OS thread) waits until the target's state
+// word says `suspended` (nobody else can wake it, so it stays suspended until the driver acts:
+// the interruption is never requested while the target is active, in particular never while it
+// is inside this_thread::yield(), which is noexcept) and interrupts it: set_thread_state(pending,
+// abort).  The target catches pika::thread_interrupted and then — in the same run of its body —
+// blocks on facility 2 (semaphore / cv with predicate / mutex / latch).  The driver issues the
+// matching wake-up of facility 2 (itself, or through a waker task on a worker), either at once
+// (racing with the suspension) or after it has seen the target suspended.  Monitor: every target
+// finishes (ledger), bounded: quiescence watchdog and the "marked active, on no worker" watch of
+// Runner::wait_done.  All state-word chains of the case go through the acceptor.
+struct Intr
+{
+    pika::counting_semaphore<> sem1{0};    // never released
+    pika::condition_variable_any cv1;      // never notified
+    pika::concurrency::detail::spinlock cv1m;
+    pika::mutex m1;    // held by the holder task until every target is done
+    pika::counting_semaphore<> sem2{0};
+    pika::condition_variable_any cv2;
+    pika::concurrency::detail::spinlock cv2m;
+    std::vector<int> cv2_flag;
+    pika::mutex m2;    // held by the holder task until the driver asks for its release
+    std::vector<std::unique_ptr<pika::latch>> l2;
+    std::vector<std::unique_ptr<pika::counting_semaphore<>>> go;    // driver -> waker task i
+    pika::counting_semaphore<> rel_m2{0}, rel_m1{0};
+    std::atomic<int> caught{0}, unexpected_return{0}, targets_done{0};
+    std::vector<int> f1, f2;
+    int T = 0;
+};
+
+static void intr_wake(std::shared_ptr<Case> c, std::shared_ptr<Intr> S, int i)
+{
+    c->flag[i].fetch_add(1, std::memory_order_acq_rel);    // flag = wake-ups issued for the task; now the one of facility 2
+    c->wakeups_issued.fetch_add(1);
+    switch (S->f2[std::size_t(i)])
+    {
+    case 0: S->sem2.release(1); break;
+    case 1:
+    {
+        {
+            std::unique_lock<pika::concurrency::detail::spinlock> l(S->cv2m);
+            S->cv2_flag[std::size_t(i)] = 1;
+        }
+        S->cv2.notify_all();
+        break;
+    }
+    case 2: break;    // the mutex is released once, by the holder (see the driver)
+    default: S->l2[std::size_t(i)]->count_down(1); break;
+    }
+}
+
+static int setup_intr(std::shared_ptr<Case> c, Rng& g, std::vector<std::thread>& ths)
+{
+    auto S = std::make_shared<Intr>();
+    int T = 2 + g.below(5);
+    S->T = T;
+    bool waker_tasks = g.chance(1, 2);
+    bool any_mutex = false;
+    std::string sig;
+    for (int i = 0; i < T; ++i)
+    {
+        S->f1.push_back(g.below(3));
+        S->f2.push_back(g.below(4));
+        any_mutex = any_mutex || S->f1.back() == 2 || S->f2.back() == 2;
+        S->l2.push_back(std::make_unique<pika::latch>(std::ptrdiff_t(1)));
+        S->go.push_back(std::make_unique<pika::counting_semaphore<>>(0));
+        static char const* n1[] = {"sem", "cv", "mutex"};
+        static char const* n2[] = {"sem", "cv", "mutex", "latch"};
+        sig += std::string(i ? "," : "") + n1[S->f1.back()] + ">" + n2[S->f2.back()];
+    }
+    S->cv2_flag.assign(std::size_t(T), 0);
+    // tasks: targets 0..T-1, waker tasks T..2T-1 (optional), holder (optional) last
+    int K = T + (waker_tasks ? T : 0) + (any_mutex ? 1 : 0);
+    c->kind = std::string("after_interrupted_wait+") + (waker_tasks ? "wtask" : "wext");
+    c->init(K);
+    std::printf("INFO %d after_interrupted_wait targets=%d wakers=%s facilities=%s\n", c->id, T, waker_tasks ? "tasks" : "os-thread",
+        sig.c_str());
+    int holder = any_mutex ? K - 1 : -1;
+    auto spawn_targets = [c, S, T] {
+        for (int i = 0; i < T; ++i)
+            spawn(
+                [c, S, i] {
+                    Begin b(c.get(), i);
+                    c->ids[i] = thread_id_ref_type(get_self_id());
+                    c->idready[i].store(1, std::memory_order_release);
+                    bool caught = false;
+                    b.seg_out();
+                    try
+                    {
+                        c->reg[i].store(1, std::memory_order_release);    // about to block on facility 1
+                        switch (S->f1[std::size_t(i)])
+                        {
+                        case 0: S->sem1.acquire(); break;
+                        case 1:
+                        {
+                            std::unique_lock<pika::concurrency::detail::spinlock> l(S->cv1m);
+                            S->cv1.wait(l, [] { return false; });
+                            break;
+                        }
+                        default:
+                            S->m1.lock();
+                            S->m1.unlock();
+                            break;
+                        }
+                    }
+                    catch (pika::thread_interrupted const&)
+                    {
+                        caught = true;
+                    }
+                    b.seg_in();
+                    if (caught) S->caught.fetch_add(1);
+                    else S->unexpected_return.fetch_add(1);
+                    c->reg[i].store(2, std::memory_order_release);    // about to block on facility 2
+                    blocking(b, [&] {
+                        switch (S->f2[std::size_t(i)])
+                        {
+                        case 0: S->sem2.acquire(); break;
+                        case 1:
+                        {
+                            std::unique_lock<pika::concurrency::detail::spinlock> l(S->cv2m);
+                            S->cv2.wait(l, [&] { return S->cv2_flag[std::size_t(i)] != 0; });
+                            break;
+                        }
+                        case 2:
+                            S->m2.lock();
+                            S->m2.unlock();
+                            break;
+                        default: S->l2[std::size_t(i)]->wait(); break;
+                        }
+                    });
+                    c->reg[i].store(3, std::memory_order_release);
+                    S->targets_done.fetch_add(1);
+                },
+                i % 2, 0);
+    };
+    if (any_mutex)
+        spawn(
+            [c, S, holder, spawn_targets] {
+                Begin b(c.get(), holder);
+                blocking(b, [&] { S->m1.lock(); });
+                blocking(b, [&] { S->m2.lock(); });
+                spawn_targets();    // the targets are created once both mutexes are held
+                blocking(b, [&] { S->rel_m2.acquire(); });
+                S->m2.unlock();
+                blocking(b, [&] { S->rel_m1.acquire(); });
+                S->m1.unlock();
+            },
+            1, 0);
+    else spawn_targets();
+    if (waker_tasks)
+        for (int i = 0; i < T; ++i)
+            spawn(
+                [c, S, i, T] {
+                    Begin b(c.get(), T + i);
+                    blocking(b, [&] { S->go[std::size_t(i)]->acquire(); });
+                    b.seg_out();
+                    intr_wake(c, S, i);
+                    b.seg_in();
+                },
+                (i + 1) % 2, 0);
+    std::uint64_t ds = g.next();
+    ths.emplace_back([c, S, T, waker_tasks, any_mutex, ds] {
+        Rng dg(ds);
+        auto stopped = [&] { return c->stop_inject.load(std::memory_order_acquire) != 0; };
+        auto word_st = [&](int i) { return int(get_thread_id_data(c->ids[std::size_t(i)])->get_state().state()); };
+        int const ST_SUSP = int(thread_schedule_state::suspended);
+        std::vector<int> order;
+        for (int i = 0; i < T; ++i) order.push_back(i);
+        for (int i = T - 1; i > 0; --i) std::swap(order[std::size_t(i)], order[std::size_t(dg.below(i + 1))]);
+        // phase A: interrupt every target while it is suspended in facility 1
+        for (int i : order)
+        {
+            while (!stopped() &&
+                !(c->idready[i].load(std::memory_order_acquire) && c->reg[i].load(std::memory_order_acquire) >= 1 &&
+                    word_st(i) == ST_SUSP))
+                std::this_thread::yield();
+            if (stopped()) return;
+            if (dg.chance(1, 3)) spin(dg.below(3000));
+            pika::error_code ec(pika::throwmode::lightweight);
+            c->flag[i].fetch_add(1, std::memory_order_acq_rel);    // a wake-up with restart reason `abort`
+            c->wakeups_issued.fetch_add(1);
+            interrupt_thread(c->ids[std::size_t(i)].noref(), true, ec);
+        }
+        // phase B: the matching wake-up of facility 2, racing with the second suspension or after it
+        for (int i = T - 1; i > 0; --i) std::swap(order[std::size_t(i)], order[std::size_t(dg.below(i + 1))]);
+        bool m2_released = false;
+        for (int i : order)
+        {
+            while (!stopped() && c->reg[i].load(std::memory_order_acquire) < 2) std::this_thread::yield();
+            if (stopped()) return;
+            if (dg.chance(1, 2))
+            {
+                // late wake-up: give the target up to ~2 ms to get suspended (not required)
+                auto t0 = std::chrono::steady_clock::now();
+                while (word_st(i) != ST_SUSP &&
+                    std::chrono::duration<double>(std::chrono::steady_clock::now() - t0).count() < 0.002)
+                    std::this_thread::yield();
+            }
+            else if (dg.chance(1, 2)) spin(dg.below(2000));
+            if (waker_tasks) S->go[std::size_t(i)]->release(1);
+            else intr_wake(c, S, i);
+            if (S->f2[std::size_t(i)] == 2 && !m2_released)
+            {
+                m2_released = true;
+                S->rel_m2.release(1);    // the holder unlocks m2: wake-up of the first waiter; each waiter unlocks in turn
+            }
+        }
+        if (any_mutex && !m2_released) S->rel_m2.release(1);
+        while (!stopped() && S->targets_done.load() < T) std::this_thread::yield();
+        if (any_mutex) S->rel_m1.release(1);
+        std::printf("INTR %d targets=%d interrupted_in_wait=%d wait_returned_without_exception=%d resumed_after_second_wait=%d\n", c->id, T,
+            S->caught.load(), S->unexpected_return.load(), S->targets_done.load());
+    });
+    return K;
+}
+
 static bool settle(Runner& R)
 {
     auto t0 = std::chrono::steady_clock::now();
@@ -153,6 +371,7 @@ int main(int argc, char** argv)
             {
                 static int const kinds[] = {3, 3, 4, 5, 6, 3, 4};
                 kind = kinds[g.below(7)];
+                if (id % 5 == 0) kind = 7;    // wake-ups after an interrupted wait: every 5th case
             }
             else
             {
@@ -160,6 +379,7 @@ int main(int argc, char** argv)
                 kind = kinds[g.below(10)];
             }
             if (kind == 0 || kind == 1) expected = setup_tree(c, g, kind == 1, ths);
+            else if (kind == 7) expected = setup_intr(c, g, ths);
             else if (kind == 2)
             {
                 c->kind = "chain";
